@@ -21,6 +21,7 @@ PROPS = {
     "C05": P("appmon", shards=(6, 16), floor=(10, 10)),
     "C03": P("appmon", shards=(6, 16), floor=(10, 10)),
     "C18": P("appmon", shards=(6, 16), floor=(6, 6)),
+    "C11": P("appmon", shards=(6, 16), floor=(6, 6)),
     "C10": P("appmon", shards=(6, 16), floor=(6, 6)),
     "C09": P("appmon", shards=(6, 16), floor=(6, 6)),
     "C08": P("appmon", shards=(6, 16), floor=(10, 10)),
